@@ -20,6 +20,7 @@ func checkC03(c *Check) {
 	p := c.P
 	c.Explanation = "C03 (structural clauses of the hand-written indentation lexer): (1) every token type whose generated lexer action records a line break (stores true to lexerState.gotNewLine) is in the set of token types the token pump returns unchanged while a line break is pending, and the whole-line comment token returns before indentation is synthesised — otherwise a blank or comment line is measured as indentation; (2) the leading-width function is additive with space = 1 and tab = 4 and nothing else (a necessary condition for uniform re-indentation and tab-for-4-spaces to preserve the order of indent widths); (3) in the synthesis loop every push on the indent stack is paired with an emitted INDENT token and every pop with a DEDENT token. Equality of the models of two layouts is not decided."
 	c03LayoutBlind(c)
+	walkEveryFile(c, "WALK-EVERY-FILE")
 	c.Assumptions = append(c.Assumptions, "the generated lexer (sysl_lexer.go) corresponds to SyslLexer.g4 (ANTLR naming convention <TOKEN>_Action / SyslLexer<TOKEN>)")
 	gp := p.SSAPkgs[grammarPkg]
 	if gp == nil {
